@@ -497,8 +497,16 @@ def swap_heavy_program(draw, min_n=3, max_n=6, max_ops=12):
     n = draw(st.integers(min_n, max_n))
     ops = []
     for _ in range(draw(st.integers(3, max_ops))):
-        if draw(st.integers(0, 9)) < 5:
+        r = draw(st.integers(0, 10))
+        if r < 5:
             ops.append(draw(op_swaps(n)))
+        elif r == 10:
+            # a plain group whose content is (mostly) mode swaps: swaps outside it must not be merged through it
+            k = draw(st.integers(2, n))
+            sub_ops = [draw(op_swaps(k)) if draw(st.integers(0, 3)) else draw(primitive(k, False))
+                       for _ in range(draw(st.integers(1, 3)))]
+            ops.append(["add", {"n": k, "ops": sub_ops}, draw(st.integers(0, n - k)), True,
+                        draw(st.sampled_from([None, "swaps"]))])
         else:
             ops.append(draw(primitive(n, True)))
     return {"n": n, "ops": ops}
